@@ -85,6 +85,9 @@ impl Prop for C03 {
         v.extend(gen::enumerate_histories(2));
         v.extend(gen::enumerate_histories(3));
         v.extend(gen::enumerate_histories(5));
+        for huge in [1u8, 2] {
+            v.push(HistCase { universe: 6, spec: 0, wmode: 1, ctor: None, ops: vec![], huge });
+        }
         v
     }
     fn strategy(&self, tier: Tier) -> BoxedStrategy<HistCase> {
@@ -98,6 +101,17 @@ impl Prop for C03 {
         tier.pick(150_000, 1_500_000)
     }
     fn check(&self, case: &HistCase) -> Outcome {
+        if case.huge > 0 {
+            // the fixed huge-graph cases (more than 2^16 nodes), sampled reads and linear oracles
+            let mut out = Outcome::new();
+            let gc = &crate::huge::huge_cases()[(case.huge as usize - 1) % 2];
+            let ng = gc.norm();
+            let g = ng.build();
+            crate::huge::distances(&g, &ng, "single_source", &mut out);
+            out.class("huge_graph_66003_nodes");
+            out.nontrivial = true;
+            return out;
+        }
         let mut out = Outcome::new();
         let Some((mut m, mut g)) = run_ctor(case, &mut out) else {
             return out;
